@@ -1,6 +1,52 @@
-import RucteModel
+import RucteProofs.GenLemmas
 
-/-! # C18 — placeholder: theorems are added as they are proved. -/
+/-!
+# C18 — generated code is reproducible
+-/
 namespace Ructe.C18
-theorem placeholder : True := trivial
+open Nom
+
+/-- the code generated for a template: a function of the function name and the template's bytes only -/
+def templateCode (ue : Nat → Bool) (name content : Bytes) : Option Bytes :=
+  match template (8 * content.length + 16) content with
+  | .ok _ t => some (writeRust ue t name)
+  | _ => none
+
+/-- **template_code_pure**: whatever was logged before, wherever the file lives, `handle_template`
+asks for exactly one write, of `templateCode name content`, to `outdir/template_<name>.rs`
+(and for none if the template does not parse) -/
+theorem template_code_pure (ue : Nat → Bool) (o : Log) (name path outdir content : Bytes) :
+    (handleTemplate ue o name path outdir content).2.writes =
+      o.writes ++ (match templateCode ue name content with
+                   | some c => [(joinPath outdir (str "template_" ++ name ++ str ".rs"), c)]
+                   | none => []) ∧
+    (handleTemplate ue o name path outdir content).1 = (templateCode ue name content).isSome := by
+  unfold handleTemplate templateCode
+  cases template (8 * content.length + 16) content <;>
+    simp [writeIfChanged, Log.write, Log.read, Log.print]
+
+/-- the content requested for a template file does not depend on siblings, source location or prior log -/
+theorem template_code_location_independent (ue : Nat → Bool) (o o' : Log) (name path path' outdir content : Bytes) :
+    (handleTemplate ue o name path outdir content).2.writes.drop o.writes.length =
+    (handleTemplate ue o' name path' outdir content).2.writes.drop o'.writes.length := by
+  rw [(template_code_pure ue o name path outdir content).1,
+    (template_code_pure ue o' name path' outdir content).1]
+  simp
+
+/-- the whole run is a function of the script and the input tree (as listed): no clock, no
+environment, no prior state occurs in it (`buildLog` has no such argument); and carrying it out
+twice from the same state gives the same state -/
+theorem build_deterministic (ue ua : Nat → Bool) (feat : MimeFeature) (fs : FS) (outdir utils : Bytes) (ops : List Op) :
+    (build ue ua feat (build ue ua feat fs outdir utils ops).fs outdir utils ops).fs.get =
+    (build ue ua feat fs outdir utils ops).fs.get := by
+  funext p
+  unfold build
+  rw [runLog_fs_get, runLog_fs_get]
+  cases lastWrite (buildLog ue ua feat outdir utils ops).writes p <;> rfl
+
+/-- the `STATICS` line is a function of the `names_r` map alone -/
+theorem statics_line_pure (s s' : Statics) (h : s.namesR = s'.namesR) :
+    staticsLine s.namesR = staticsLine s'.namesR := by
+  rw [h]
+
 end Ructe.C18
